@@ -823,9 +823,30 @@ impl Paragraph {
         }
     }
 
+    /// Terminate the last line of the paragraph if the input ended without a newline,
+    /// so that an appended field starts on a line of its own.
+    fn terminate_last_line(&mut self) {
+        if let Some(last) = self.0.last_token() {
+            if last.kind() != NEWLINE {
+                let mut builder = GreenNodeBuilder::new();
+                builder.start_node(ENTRY.into());
+                builder.token(NEWLINE.into(), "\n");
+                builder.finish_node();
+                let newline = SyntaxNode::new_root_mut(builder.finish())
+                    .first_token()
+                    .unwrap();
+                // The newline belongs to the line it terminates (normally the last entry)
+                let parent = last.parent().unwrap_or_else(|| self.0.clone());
+                let count = parent.children_with_tokens().count();
+                parent.splice_children(count..count, vec![newline.into()]);
+            }
+        }
+    }
+
     /// Insert a new field
     pub fn insert(&mut self, key: &str, value: &str) {
         let entry = Entry::new(key, value);
+        self.terminate_last_line();
         let count = self.0.children_with_tokens().count();
         self.0.splice_children(count..count, vec![entry.0.into()]);
     }
@@ -843,6 +864,7 @@ impl Paragraph {
                 return;
             }
         }
+        self.terminate_last_line();
         let count = self.0.children_with_tokens().count();
         self.0
             .splice_children(count..count, vec![new_entry.0.into()]);
